@@ -187,10 +187,12 @@ inductive Op (K V : Type)
   | keys | values | items | len | clear
   | pop (k : K) | popD (k : K) (d : V) | popitem
   | update (l : List (K × V)) | setdefault (k : K) (d : V) | getD (k : K) (d : V)
+deriving DecidableEq, Repr
 
 inductive Out (K V : Type)
   | unit | bool (b : Bool) | val (v : V) | keys (l : List K) | vals (l : List V)
   | items (l : List (K × V)) | nat (n : Nat) | item (k : K) (v : V) | err (e : PyErr)
+deriving DecidableEq, Repr
 
 def outOf {K V α : Type} (f : α → Out K V) : Except PyErr α → Out K V
   | .ok a => f a
@@ -560,5 +562,93 @@ def vcPolicy : Policy Text Val where
   coerce v := match vcAsList v with
     | [] => .ok none
     | l => .ok (some (.list l))
+
+/-! ### vocabulary of the C16 theorems (definitions only; the theorems are in Props/C16.lean) -/
+
+section vocab
+variable {S K V : Type} [DecidableEq K]
+
+/-- two association lists are the same dictionary: every key looks up the same.  (The order
+of a Python dict / set is not part of the mapping contract; `VCommentDict.keys()` comes
+out of a hash set.) -/
+def SameMap (r1 r2 : RefDict K V) : Prop := ∀ k, lookup k r1 = lookup k r2
+
+/-- a state-changing primitive against the reference: both raise the same exception class,
+or both succeed and the new state (which satisfies the invariant again) abstracts to the
+same dictionary as the reference's new state -/
+def SimStep (inv : S → Prop) (abs : S → RefDict K V) :
+    Except PyErr S → Except PyErr (RefDict K V) → Prop
+  | .ok s', .ok r' => inv s' ∧ SameMap (abs s') r'
+  | .error e, .error e' => e = e'
+  | _, _ => False
+
+/-- the four primitives of store `m` refine the reference dictionary with policy `P` under
+the abstraction function `abs`, on the states satisfying `inv` -/
+structure Refines (m : MapImpl S K V) (P : Policy K V) (inv : S → Prop) (abs : S → RefDict K V) : Prop where
+  /-- the abstraction of a good state has unique keys -/
+  nodup : ∀ s, inv s → NodupKeys (abs s)
+  /-- `keys()` lists, in the order of `abs`, keys whose normal forms are the reference's keys -/
+  keys : ∀ s, inv s → (m.keys s).map P.norm = (keysOf (abs s)).map Except.ok
+  /-- `__getitem__`: same value, same exception class -/
+  get : ∀ s k, inv s → m.getitem s k = Ref.get P (abs s) k
+  set : ∀ s k v, inv s → SimStep inv abs (m.setitem s k v) (Ref.set P (abs s) k v)
+  del : ∀ s k, inv s → SimStep inv abs (m.delitem s k) (Ref.del P (abs s) k)
+
+/-- an output of the store against the output of the reference run on `abs s` itself:
+equal, where keys that the store returns are compared after normalisation -/
+def OutMatch (P : Policy K V) : Out K V → Out K V → Prop
+  | .unit, .unit => True
+  | .bool b, .bool b' => b = b'
+  | .val v, .val v' => v = v'
+  | .keys l, .keys l' => l.map P.norm = l'.map Except.ok
+  | .vals l, .vals l' => l = l'
+  | .items l, .items l' => l.map (fun p => (P.norm p.1, p.2)) = l'.map (fun p => (Except.ok p.1, p.2))
+  | .nat n, .nat n' => n = n'
+  | .item k v, .item k' v' => P.norm k = .ok k' ∧ v = v'
+  | .err e, .err e' => e = e'
+  | _, _ => False
+
+/-- an output of the store against the output of the reference run on any association list
+that is the same dictionary: as `OutMatch`, but key / value / item lists only up to order -/
+def OutEquiv (P : Policy K V) : Out K V → Out K V → Prop
+  | .keys l, .keys l' => ∃ n : List K, l.map P.norm = n.map Except.ok ∧ n.Perm l'
+  | .vals l, .vals l' => l.Perm l'
+  | .items l, .items l' =>
+    ∃ n : List (K × V), l.map (fun p => (P.norm p.1, p.2)) = n.map (fun p => (Except.ok p.1, p.2)) ∧ n.Perm l'
+  | o, o' => OutMatch P o o'
+
+/-- the reference accepts output `o` for operation `op` in state `r` and moves to `r'`.
+`popitem` is angelic: any present key may come out (which one is an accident of the
+store's iteration order), `KeyError` exactly when the dictionary is empty. -/
+def RefStep (P : Policy K V) (r : RefDict K V) (op : Op K V) (o : Out K V) (r' : RefDict K V) : Prop :=
+  match op with
+  | .popitem =>
+    (r = [] ∧ o = .err .key ∧ r' = r) ∨
+    (∃ k k' v, o = .item k v ∧ P.norm k = .ok k' ∧ lookup k' r = some v ∧ r' = erase k' r)
+  | op => OutEquiv P o (Ref.step P r op).1 ∧ r' = (Ref.step P r op).2
+
+/-- the reference accepts the whole list of outputs for the whole list of operations -/
+def Accepts (P : Policy K V) : RefDict K V → List (Op K V) → List (Out K V) → Prop
+  | _, [], [] => True
+  | r, op :: ops, o :: os => ∃ r', RefStep P r op o r' ∧ Accepts P r' ops os
+  | _, _, _ => False
+
+/-- output lists of equal length, related position by position -/
+def OutsEquiv (P : Policy K V) : List (Out K V) → List (Out K V) → Prop
+  | [], [] => True
+  | o :: os, o' :: os' => OutEquiv P o o' ∧ OutsEquiv P os os'
+  | _, _ => False
+
+/-- the operations `VCommentDict` (a Python list of pairs) offers as a dictionary: all but
+`pop`/`popitem` (which are `list.pop`) and `len` (number of values, `vc_len`) -/
+def Op.isVcDict : Op K V → Bool
+  | .pop _ => false | .popD _ _ => false | .popitem => false | .len => false
+  | _ => true
+
+def Op.isPopitem : Op K V → Bool
+  | .popitem => true
+  | _ => false
+
+end vocab
 
 end Mutagen.Dict
